@@ -331,6 +331,10 @@ func init() {
 				}
 			}
 			w.stats.Inc("probe.P2-depth-limit")
+			w.deepChainVerify("C14")
+			if w.ownViolation() {
+				return
+			}
 		}
 		// ---- fund an output guarded by the policy
 		fund := types.V2Transaction{SiacoinInputs: []types.V2SiacoinInput{{Parent: funder.Copy()}}, SiacoinOutputs: []types.SiacoinOutput{{Value: funder.SiacoinOutput.Value, Address: addr}}}
